@@ -118,7 +118,7 @@ def pairs_conform(deps, rate, cap, what):
 
 class BucketPart:
     name = "bucket"
-    kinds = ["tb", "trtb"]
+    kinds = ["tb", "trtb", "tb2", "trtb2"]
     serves = ["C11", "C08"]
     props_files = {"C11": ["Props/C11.v"], "C08": ["Props/C08_Bucket.v"]}
     coq_imports = ["From ONL Require Import Base.Cmp Elem.Packet Elem.StoreQ Elem.Bucket Elem.TwoRate."]
@@ -128,7 +128,10 @@ class BucketPart:
                 "time lattice with long idle gaps, extra arrivals placed exactly at computed release instants; rates/peaks powers "
                 "of two (every float the code computes is exact), bucket sizes 0 / smaller / larger than the packets, peak "
                 "None/0/set, PIR/PBS None/set, initial time 0 / positive / negative; non-trivial = at least 3 packets and at "
-                "least one packet that had to wait for tokens (tb) resp. at least two different colours (trtb); distinct by hash"),
+                "least one packet that had to wait for tokens (tb) resp. at least two different colours (trtb); kinds tb2 / trtb2 (12%): TWO "
+                "bucket instances (different parameters; tb2 also puts a TokenBucket next to a TwoRateTokenBucket) in ONE Environment "
+                "with interleaved workloads, each replayed against its own copy of the model, monitors per instance plus "
+                "instances-interfere (an action of one instance must not change the other's public state); distinct by hash"),
         "C08": "same case stream as C11; non-trivial = at least 3 packets, at least one queued behind another",
     }
     trusted_base = {
@@ -153,7 +156,25 @@ class BucketPart:
     GAPS = [Fr(0), Fr(1, 4), Fr(1, 2), Fr(1), Fr(3, 2), Fr(2), Fr(3), Fr(5), Fr(64)]
 
     def gen_case(self, rng, tier, prop_id):
-        kind = rng.choice(["tb", "trtb"])
+        if rng.random() < 0.12:
+            # two instances in one Environment: state kept per class / per module instead of per instance shows up here
+            kind2 = rng.choice(["tb2", "trtb2"])
+            t0 = rng.choice([Fr(0)] * 6 + [Fr(1, 2), Fr(3), Fr(-2)])
+            ka = "tb" if kind2 == "tb2" else "trtb"
+            kb = ka if (kind2 == "trtb2" or rng.random() < 0.65) else "trtb"
+            a = self._gen_single(rng, ka, t0)
+            b = self._gen_single(rng, kb, t0)
+            for c in (a, b):
+                c["pre"] = False
+            off = 100
+            wb = b["workload"]
+            wb["packets"] = {str(int(u) + off): {**sp, "id": sp["id"] + off} for u, sp in wb["packets"].items()}
+            for d in wb["drivers"]:
+                d["bursts"] = [[t, [u + off for u in uids]] for (t, uids) in d["bursts"]]
+            return {"kind": kind2, "t0": cf.qjson(t0), "insts": [a, b]}
+        return self._gen_single(rng, rng.choice(["tb", "trtb"]))
+
+    def _gen_single(self, rng, kind, t0=None):
         # "tight": slow rates, small buckets, bursts, no long idle gap - the buckets rarely saturate, so every token counts
         tight = rng.random() < 0.35
         if tight:
@@ -178,7 +199,8 @@ class BucketPart:
             sizes = rng.choice([self.SIZES, (64, 128, 256), (128,), (100, 1500), (1, 8, 64)])
             w = ec.gen_workload(rng, flows=(0, 1, 2), n_max=12, sizes=sizes, gaps=self.GAPS, horizon=80,
                                 burst_p=rng.choice([0.2, 0.5, 0.8]))
-        t0 = rng.choice([Fr(0)] * 6 + [Fr(1, 2), Fr(3), Fr(100), Fr(-2), Fr(-64)])
+        if t0 is None:
+            t0 = rng.choice([Fr(0)] * 6 + [Fr(1, 2), Fr(3), Fr(100), Fr(-2), Fr(-64)])
         if t0 != 0:
             for d in w["drivers"]:
                 d["bursts"] = [[cf.qjson(Fr(t) + t0), uids] for (t, uids) in d["bursts"]]
@@ -264,35 +286,97 @@ class BucketPart:
 
     # ---- implementation -------------------------------------------------------------------------
     def run_impl(self, case):
+        if case["kind"] in ("tb2", "trtb2"):
+            obs = self._run(case["insts"], False, case["t0"])
+            return {"multi": obs[:-1], "interfere": obs[-1], "raised": obs[0]["raised"]}
+        return self._run([case], case.get("pre"), case["t0"])[0]
+
+    def _run(self, cases, pre, t0):
+        """run one or two bucket instances in ONE Environment; returns one observation per instance (the global clock
+        advances and its own put/step entries, sampled on its own public state) and, for two, the interference notes"""
         from onl.sim import Environment
-        env = Environment(initial_time=ec.T(case["t0"]))
+        env = Environment(initial_time=ec.T(t0))
         h = ec.Harness(env)
-        w = case["workload"]
-        h.add_packets(w["packets"])
-        if case.get("pre"):
-            for d in w["drivers"]:
+        n = len(cases)
+        tags = [""] if n == 1 else ["A", "B"]
+        owner = {}
+        for i, c in enumerate(cases):
+            h.add_packets(c["workload"]["packets"])
+            for u in c["workload"]["packets"]:
+                owner[int(u)] = i
+        if pre and n == 1:
+            for d in cases[0]["workload"]["drivers"]:
                 h.add_driver(d["bursts"], late=d["late"])
-        if case["kind"] == "tb":
-            from onl.netdev.token_bucket import TokenBucket
-            el = TokenBucket(env, rate=num(case["rate"]), bucket_size=case["bsize"],
-                             peak=None if case["peak"] is None else num(case["peak"]))
-            h.after_action(lambda: [el.packets_received, el.packets_sent, ec.qs(el.current_bucket), ec.qs(el.update_time),
-                                    len(el.store.items)])
+        insts, samplers = [], []
+        for i, c in enumerate(cases):
+            if c["kind"] == "tb":
+                from onl.netdev.token_bucket import TokenBucket
+                el = TokenBucket(env, rate=num(c["rate"]), bucket_size=c["bsize"],
+                                 peak=None if c["peak"] is None else num(c["peak"]))
+                samplers.append(lambda el=el: [el.packets_received, el.packets_sent, ec.qs(el.current_bucket),
+                                               ec.qs(el.update_time), len(el.store.items)])
+            else:
+                from onl.netdev.two_level_token_bucket import TwoRateTokenBucket
+                el = TwoRateTokenBucket(env, cir=num(c["cir"]), cbs=c["cbs"],
+                                        pir=None if c["pir"] is None else num(c["pir"]), pbs=c["pbs"])
+                samplers.append(lambda el=el: [el.packets_received, el.packets_sent, ec.qs(el.current_bucket_commit),
+                                               None if el.current_bucket_peak is None else ec.qs(el.current_bucket_peak),
+                                               ec.qs(el.update_time), len(el.store.items)])
+            el.out = ColourTap(h, "out" + tags[i])
+            h.watch_store("store" + tags[i], el.store)
+            if tags[i]:
+                el.action._generator.__name__ = "run" + tags[i]
+            insts.append(el)
+        h.attach(insts[0])
+        if n == 1:
+            h.after_action(samplers[0])
         else:
-            from onl.netdev.two_level_token_bucket import TwoRateTokenBucket
-            el = TwoRateTokenBucket(env, cir=num(case["cir"]), cbs=case["cbs"],
-                                    pir=None if case["pir"] is None else num(case["pir"]), pbs=case["pbs"])
-            h.after_action(lambda: [el.packets_received, el.packets_sent, ec.qs(el.current_bucket_commit),
-                                    None if el.current_bucket_peak is None else ec.qs(el.current_bucket_peak),
-                                    ec.qs(el.update_time), len(el.store.items)])
-        el.out = ColourTap(h, "out")
-        h.attach(el)
-        h.watch_store("store", el.store)
-        if not case.get("pre"):
-            for d in w["drivers"]:
-                h.add_driver(d["bursts"], late=d["late"])
+            h.after_action(lambda: [f() for f in samplers])
+        if n > 1 or not pre:
+            for i, c in enumerate(cases):
+                for d in c["workload"]["drivers"]:
+                    h.add_driver(d["bursts"], late=d["late"], target=insts[i])
         log = h.run()
-        return {"log": log, "raised": h.raised, "exhausted": h.exhausted}
+        if n == 1:
+            return [{"log": log, "raised": h.raised, "exhausted": h.exhausted}]
+        # split the global log per instance; an action of one instance must leave the other's public state alone
+        logs = [[] for _ in range(n)]
+        interfere = []
+        prev = None
+        for e in log:
+            k, samples = e[0], e[-1]
+            who = None
+            if k == "adv":
+                for i in range(n):
+                    logs[i].append(["adv", e[1], samples[i]])
+            elif k == "put":
+                who = owner[e[1]]
+                logs[who].append(["put", e[1], e[2], samples[who]])
+            elif k in ("step", "raise"):
+                tgt = e[1][1] if e[1] else ""
+                who = next((i for i in range(n) if tgt.endswith(tags[i])), None)
+                if who is None:
+                    interfere.append(f"instances-interfere: kernel step {e[1]} cannot be attributed to an instance")
+                    who = 0
+                else:
+                    tgt = tgt[:-len(tags[who])]
+                for o in e[2]:
+                    if o[1] != "out" + tags[who] or owner.get(o[2]) != who:
+                        interfere.append(f"instances-interfere: packet {o[2]} (put into instance {tags[owner.get(o[2], 0)]}) came out of "
+                                         f"tap {o[1]} during a step of instance {tags[who]}")
+                    o[1] = "out"
+                logs[who].append([k, [e[1][0], tgt] if e[1] else e[1], e[2]] + ([e[3]] if k == "raise" else []) + [samples[who]])
+            else:
+                interfere.append(f"instances-interfere: {e[:2]}")
+            if prev is not None and len(interfere) < 2:
+                for i in range(n):
+                    if i != who and samples[i] != prev[i]:
+                        interfere.append(f"instances-interfere: a {k} action of instance {tags[who] if who is not None else '-'} changed the "
+                                         f"public state of instance {tags[i]}: {prev[i]} -> {samples[i]}")
+            prev = samples
+        out = [{"log": logs[i], "raised": h.raised, "exhausted": h.exhausted} for i in range(n)]
+        out.append(interfere[:2])
+        return out
 
     # ---- log -> model actions -------------------------------------------------------------------
     COL = {"green": "Green", "yellow": "Yellow", "red": "Red"}
@@ -350,6 +434,13 @@ class BucketPart:
         return f"{{| cir := {cf.q(case['cir'])}; cbs := {cf.q(case['cbs'])}; pk := {pkc} |}}"
 
     def agree_term(self, case, obs):
+        if case["kind"] in ("tb2", "trtb2"):
+            if obs["interfere"]:
+                return "false (* instances interfere *)"
+            ts = [self.agree_term(c, o) for c, o in zip(case["insts"], obs["multi"])]
+            if any(t is None for t in ts):
+                return None
+            return "(" + ") && (".join(ts) + ")"
         cfg = self._cfg_term(case)
         if cfg is None:
             return None                      # PIR without PBS: the code asserts; outside the model
@@ -396,6 +487,11 @@ class BucketPart:
         return msgs, arrivals, deps
 
     def monitor(self, case, obs, prop_id):
+        if case["kind"] in ("tb2", "trtb2"):
+            msgs = list(obs["interfere"])
+            for c, o in zip(case["insts"], obs["multi"]):
+                msgs += self.monitor(c, o, prop_id)
+            return msgs[:3]
         kind = case["kind"]
         if obs["raised"]:
             return [f"{kind}-raises: {obs['raised']}"]
@@ -482,6 +578,9 @@ class BucketPart:
         return msgs[:3]
 
     def nontrivial(self, case, obs, prop_id):
+        if case["kind"] in ("tb2", "trtb2"):
+            return (not obs["raised"] and all(len(c["workload"]["packets"]) >= 2 for c in case["insts"])
+                    and any(self.nontrivial(c, o, prop_id) for c, o in zip(case["insts"], obs["multi"])))
         if obs["raised"] or len(case["workload"]["packets"]) < 3:
             return False
         _, arrivals, deps = self._timeline(case, obs)
@@ -493,6 +592,15 @@ class BucketPart:
         return len({d["colour"] for d in deps}) >= 2
 
     def shrink(self, case):
+        if case["kind"] in ("tb2", "trtb2"):
+            for i in (0, 1):
+                for c in self.shrink(case["insts"][i]):
+                    if c["t0"] != case["t0"] or not c["workload"]["packets"]:
+                        continue
+                    ins = list(case["insts"])
+                    ins[i] = c
+                    yield {**case, "insts": ins}
+            return
         for w in ec.shrink_workload(case["workload"]):
             yield {**case, "workload": w}
         if case["t0"] != "0/1":
@@ -506,6 +614,10 @@ class BucketPart:
             yield {**case, "peak": None}
 
     def describe(self, case, obs):
+        if case["kind"] in ("tb2", "trtb2"):
+            a, b = case["insts"]
+            return [case["kind"], f"{case['kind']}:{a['kind']}+{b['kind']}",
+                    case["kind"] + ":t0=" + ("0" if case["t0"] == "0/1" else "neg" if case["t0"].startswith("-") else "pos")]
         k = case["kind"]
         keys = [k, f"{k}:packets={min(len(case['workload']['packets']), 15)}", f"{k}:drivers={len(case['workload']['drivers'])}",
                 f"{k}:t0={'0' if case['t0'] == '0/1' else ('neg' if case['t0'].startswith('-') else 'pos')}"]
